@@ -86,6 +86,7 @@ type Graph struct {
 
 	idom    []int
 	domDone bool
+	consts  map[string]string
 }
 
 type targets struct {
